@@ -849,9 +849,25 @@ def _eq(a, b):
     return layoutsem.same(a, b)
 
 
+class _NoneDeep(object):
+    def __repr__(self):
+        return "None(or lists of None)"
+
+
+NONE_DEEP = _NoneDeep()
+
+
+def _only_none(v):
+    if v is None:
+        return True
+    return isinstance(v, list) and all(_only_none(x) for x in v)
+
+
 def matches(expected, got):
     """Compare an expected value that may contain Alt nodes with an observed logical value."""
     import layoutsem
+    if expected is NONE_DEEP:
+        return _only_none(got)
     if isinstance(expected, Alt):
         for o in expected.options:
             if isinstance(o, tuple) and o == ("any",):
@@ -1084,3 +1100,121 @@ def fillna(T, tvs, value):
             return tuple(rec(t, v[i]) for i, t in enumerate(T[1]))
         return v
     return [rec(T, e) for e in tvs]
+
+
+###################################################################### C04: broadcasting (NumPy-right / tree-left)
+
+class BList(object):
+    """One list level of a broadcasting operand: elements, and whether the level is regular (its size then
+    belongs to the type)."""
+    __slots__ = ("items", "regular", "allreg", "_depth")
+
+    def __init__(self, items, regular, allreg, depth):
+        self.items = items          # elements: BList | leaf | None
+        self.regular = regular      # this level is regular-sized
+        self.allreg = allreg        # this level and every level below it are regular
+        self._depth = depth         # number of list levels from here down (from the type, so that empty lists know it)
+
+    def depth(self):
+        return self._depth
+
+
+def _allreg_type(T):
+    k = T[0]
+    if k == "opt":
+        return _allreg_type(T[1])
+    if k == "var":
+        return False
+    if k == "reg":
+        return _allreg_type(T[2])
+    if k in ("str", "bytes", "rec", "tup", "union"):
+        return False
+    return True
+
+
+def _type_depth(T):
+    k = T[0]
+    if k == "opt":
+        return _type_depth(T[1])
+    if k == "var":
+        return 1 + _type_depth(T[1])
+    if k == "reg":
+        return 1 + _type_depth(T[2])
+    return 0
+
+
+def to_blist(T, v):
+    """Typed value -> broadcasting structure (options become None / transparent)."""
+    if isinstance(v, U):
+        raise Skip("union operand")
+    k = T[0]
+    if k == "opt":
+        if v is None:
+            return None
+        return to_blist(T[1], v)
+    if k == "var":
+        return BList([to_blist(T[1], e) for e in v], False, False, 1 + _type_depth(T[1]))
+    if k == "reg":
+        return BList([to_blist(T[2], e) for e in v], True, _allreg_type(T[2]), 1 + _type_depth(T[2]))
+    if k in ("int", "float", "bool"):
+        return v
+    raise Skip("broadcasting %s" % k)
+
+
+def array_to_blist(T, tvs):
+    """The array itself is a regular dimension of its own length (broadcast_pack wraps it that way)."""
+    return BList([to_blist(T, e) for e in tvs], True, _allreg_type(T), 1 + _type_depth(T))
+
+
+def numpy_to_blist(arr):
+    if arr.ndim == 0:
+        return arr.item()
+    return BList([numpy_to_blist(x) for x in arr], True, True, arr.ndim)
+
+
+def broadcast_apply(f, operands):
+    """operands: leaf scalars or BList; returns the nested-list result, raising RefError on a length
+    mismatch."""
+    if any(x is None for x in operands):
+        # "a missing value in any argument gives a missing result there": the library puts the None at this
+        # position when the other operands' lists here are variable-length and spreads it over the leaves of
+        # regular ones; the statement admits both
+        return NONE_DEEP
+    lists = [x for x in operands if isinstance(x, BList)]
+    if not lists:
+        out = f(*operands)
+        return out.item() if hasattr(out, "item") else out
+    if all(x.allreg for x in lists):
+        # NumPy rule: align dimensions to the right by giving shallower operands leading length-1 dimensions
+        maxd = max(x.depth() for x in lists)
+        ops = []
+        for x in operands:
+            if isinstance(x, BList):
+                while x.depth() < maxd:
+                    x = BList([x], True, True, x.depth() + 1)
+            ops.append(x)
+        operands = ops
+        lists = [x for x in operands if isinstance(x, BList)]
+    target = None
+    for x in lists:
+        n = len(x.items)
+        if x.regular and n == 1:
+            continue
+        if target is None:
+            target = n
+        elif target != n:
+            raise RefError("cannot broadcast lists of lengths %d and %d" % (target, n))
+    if target is None:
+        target = 1
+    if target == 0 and any(x.regular and len(x.items) == 1 for x in lists):
+        raise Skip("length-1 dimension against a length-0 dimension")
+    out = []
+    for i in range(target):
+        sub = []
+        for x in operands:
+            if isinstance(x, BList):
+                sub.append(x.items[0] if (x.regular and len(x.items) == 1 and target != 1) else x.items[i])
+            else:
+                sub.append(x)
+        out.append(broadcast_apply(f, sub))
+    return out
